@@ -22,9 +22,23 @@ package rangeplugin
 //@ func loadRecords
 //@   requires db != nil
 //@   modifies everything
-//@   ensures ret1 == nil ==> ret0 != nil
+// (the database driver cannot reach the map being built here)
+//@   preserves mapc(records)
+//@   ensures ret1 == nil ==> (ret0 != nil && (forall k string: has(ret0, k) ==> (ret0[k] != nil && allocated(ret0[k]))))
 //@   loop 1: invariant records != nil && db != nil && rows != nil
+//@   loop 1: invariant forall k string: has(records, k) ==> (records[k] != nil && allocated(records[k]))
 //@   loop-terminates 1: rows.Next reports the end of a finite result set (database driver, start-up only)
+
+// C02 (restart): start-up re-marks every stored lease in the allocator: one successful allocation
+// per loaded record, or the plugin refuses to start
+//@ func setupRange
+//@   modifies everything
+// (opening the database and loading the rows cannot reach the allocator just created)
+//@   preserves p.allocator, alloc_ok
+//@   ensures[C02:start-up-re-marks-every-stored-lease] ret1 == nil ==> (ret0 != nil && alloc_ok - old(alloc_ok) == len(p.Recordsv4))
+//@   loop 1: invariant p.allocator != nil
+//@   loop 1: invariant p.Recordsv4 != nil
+//@   loop 1: invariant alloc_ok - old(alloc_ok) == itercount()
 
 //@ func (*PluginState).Handler4
 //@   implements handler.Handler4
